@@ -15,7 +15,9 @@ pub fn run_miri(seed: u64, default_seeds: u64, out: &mut ExtraResult) {
     let mut ok_runs = 0u64;
     let mut checked = 0u64;
     let mut ranges = Vec::new();
-    for variant in 0..2u64 {
+    // quick: one invocation (variant 0); thorough: both variants
+    let variants = if default_seeds >= 64 { 2u64 } else { 1u64 };
+    for variant in 0..variants {
         let lo = seed.wrapping_mul(1000) % 1_000_000 + variant * nseeds;
         let hi = lo + nseeds;
         ranges.push(format!("{lo}..{hi} (variant {variant})"));
